@@ -1426,6 +1426,17 @@ class Interp:
 
     def delitem(self, c, k, node=None):
         c = self.force(c, node)
+        if isinstance(k, slice):
+            if k.start is None and k.stop is None and k.step is None:
+                self.note_write(c)
+                if isinstance(c, SList):
+                    c.items = []
+                    return
+                if isinstance(c, SymList):
+                    c.length = z3.IntVal(0)
+                    c.version += 1
+                    return
+            raise Unsupported("del of a slice", node)
         k = self.force(k, node)
         if isinstance(c, SDict):
             self.note_write(c)
